@@ -30,7 +30,7 @@ CLAUSE_PROP = {
     # C13 / C14
     "c13_plan_and_registry_unchanged": "C13",
     "c14_nothing_executes_in_dry_run": "C14", "c14_dry_plan_ops": "C14", "c14_dry_plan_order": "C14",
-    "c14_dry_is_dry": "C14", "c14_dry_run_executed_nothing": "C14", "c14_dry_run_left_stores": "C14",
+    "c14_dry_is_dry": "C14", "c14_dry_plan_transformed": "C14", "c14_dry_run_executed_nothing": "C14", "c14_dry_run_left_stores": "C14",
     # engine-level consequences seen from here
     "end_nothing_running": "C07", "too_many_inflight": "C10", "threads_leaked": "C07",
 }
